@@ -1,5 +1,5 @@
 SPECIFICATION Spec
-CONSTANTS NG = 2 Keys = {1} Rounds = 2 Modes = {"w", "r"} WRels = {"unlock", "deleteunlock"} RRels = {"runlock", "deleterunlock"} PlainDelete = FALSE Repaired = TRUE
-INVARIANTS Contract HoldsCurrent RWInv
+CONSTANTS NG = 2 Keys = {1} Rounds = 2 Modes = {"w", "r"} WRels = {"unlock", "deleteunlock"} RRels = {"runlock", "deleterunlock"} PlainDelete = FALSE Repaired = TRUE NonAtomicDeleteUnlock = FALSE
+INVARIANTS Contract HoldsCurrent RWInv NoTwoHolders
 PROPERTY AllFinish
 CHECK_DEADLOCK FALSE
